@@ -7,6 +7,21 @@
 //!   dcmsim selftest-determinism [runs] [ID...]
 //!   dcmsim list
 
+/// Leave the process without running exit handlers (a parked "exited" node thread may hold std's exit
+/// guard). A coverage build (`--cfg dicom_verif_cov`, tools_coverage.sh) writes its profile first.
+pub fn leave(code: i32) -> ! {
+    #[cfg(dicom_verif_cov)]
+    {
+        extern "C" {
+            fn __llvm_profile_write_file() -> i32;
+        }
+        unsafe {
+            __llvm_profile_write_file();
+        }
+    }
+    unsafe { libc::_exit(code) }
+}
+
 mod checks;
 mod convert;
 mod corrupt;
@@ -149,7 +164,7 @@ fn main() {
     }
     let code = real_main(&args);
     // leave without running destructors of parked threads etc.
-    unsafe { libc::_exit(code) }
+    crate::leave(code)
 }
 
 fn real_main(args: &[String]) -> i32 {
